@@ -95,6 +95,11 @@ Theorem C03_dimension_env : forall parse dflt env name s v,
   lookup_env env name = Some s -> parse s = Some v -> select_dim parse dflt env name = Ok v.
 Proof. exact select_dim_env. Qed.
 
+(* ... and a value given through the dimension's flag overrides both *)
+Theorem C03_dimension_flag : forall parse s v v',
+  parse s = Some v' -> apply_flag parse (Some s) v = v'.
+Proof. exact apply_flag_some. Qed.
+
 (* the decidable check used to classify generated documents implies WF *)
 Theorem C03_wfb_sound : forall dims t p, wfb dims p t = true -> WF dims p t.
 Proof. exact wfb_sound. Qed.
@@ -190,6 +195,7 @@ Print Assumptions C03_only_selected.
 Print Assumptions C03_error_iff.
 Print Assumptions C03_dimension_default.
 Print Assumptions C03_dimension_env.
+Print Assumptions C03_dimension_flag.
 Print Assumptions C03_wfb_sound.
 Print Assumptions C03_orig_refuted_empty_map.
 Print Assumptions C03_orig_refuted_nested_raw_map.
